@@ -214,6 +214,8 @@ def known_match(prop, key):
 
 def vkey(v):
     msg = re.sub(r"\s+", " ", v["msg"])[:120]
+    if v["kind"] == "bound":
+        msg = re.sub(r" \d+ exceeded in .*", " exceeded", msg)
     return "%s:%s:%s" % (v["harness"], v["kind"], msg)
 
 
